@@ -22,7 +22,16 @@ Definition ISIZE_MAX : Z := 9223372036854775807.
 Definition HEADER_SIZE : Z := 24.
 Definition HEADER_ALIGN : Z := 8.
 
+(* a raw element pointer `*mut T` of the world (the machine of Machine.v interprets it; the
+   evaluator only passes it around) *)
+Inductive eptr :=
+| PNull
+| PDangling                                 (* NonNull::dangling(): address = align_of T *)
+| PWild                                     (* dangling - 1 element, wrapped *)
+| PElt (b : nat) (off : Z) (i : Z).         (* block b, data assumed at byte offset off, element i *)
+
 Inductive val :=
+| VPtr (p : eptr)
 | VInt (n : Z)
 | VBool (b : bool)
 | VUnit
@@ -62,7 +71,12 @@ Section Eval.
   Variable W : Type.             (* world state    *)
   Variable cfg : tcfg.
   Variable funs : string -> option fn_ast.
-  Variable prim : string -> list val -> W -> outcome F val * W.
+  (* the answer of a whole evaluation, and continuations *)
+  Definition Ans : Type := outcome F val * W.
+  Definition KV : Type := val -> W -> Ans.
+  (* the world handler, in continuation-passing style: `k` receives the value of a call that
+     completes normally; every other outcome is the answer at once *)
+  Variable prim : string -> list val -> W -> KV -> Ans.
 
   Definition env := list (string * val).
 
@@ -169,7 +183,7 @@ Section Eval.
 
   Definition match_pat (p : pat) (v : val) : option env :=
     match p, v with
-    | PWild, _ => Some []
+    | Ast.PWild, _ => Some []
     | PBind x, _ => Some [(x, v)]
     | PLit n, VInt m => if n =? m then Some [] else None
     | PRange lo hi, VInt m => if (lo <=? m) && (m <=? hi) then Some [] else None
@@ -189,17 +203,23 @@ Section Eval.
   Definition restore (before after : env) : env :=
     skipn (List.length after - List.length before) after.
 
-  (* Expressions return (outcome, world); only statements and blocks thread the environment.
-     (A block in EXPRESSION position may declare locals but must not assign to outer variables:
-     `assigns` rejects it as Stuck.  This keeps the environment out of the results of world calls,
-     so that symbolic evaluation of a body stays linear in its size.) *)
-  Definition RE (A : Type) : Type := outcome F A * W.
-  Definition Ans : Type := outcome F val * W.
+  (* The evaluator is written in continuation-passing style: `k` receives the value (and, for
+     statements and blocks, the environment) and the world after a NORMAL completion, `kr` is the
+     continuation of `return`; a panic, a world failure, a stuck term or exhausted fuel is the answer
+     at once.  So neither the environment nor the argument values ever travel through the RESULT of a
+     world call, and symbolic evaluation of a body (cbv with the world's primitives opaque) yields
+     one small decision tree over the primitives' results -- linear in the size of the body.
+     A block in EXPRESSION position may declare locals but must not assign to outer variables
+     (`assigns` rejects it as Stuck). *)
 
-  Definition reout {A B} (o : outcome F A) : outcome F B :=
+  Definition kont (o : outcome F val) (w : W) (k : KV) : Ans :=
     match o with
-    | Norm _ => Stuck "reout"
-    | Ret v => Ret v | Panic => Panic | Fail x => Fail x | Stuck s => Stuck s | NoFuel => NoFuel
+    | Norm v => k v w
+    | Ret v => (Ret v, w)
+    | Panic => (Panic, w)
+    | Fail x => (Fail x, w)
+    | Stuck s => (Stuck s, w)
+    | NoFuel => (NoFuel, w)
     end.
 
   (* does a statement list assign to a variable it did not declare?  (syntactic, shallow: nested
@@ -214,155 +234,118 @@ Section Eval.
     end.
   Definition block_assigns (b : block) : bool := match b with Blk ss _ => assigns ss end.
 
-  Fixpoint eval_expr (fuel : nat) (e : expr) (en : env) (w : W) {struct fuel} : RE val :=
+  Fixpoint eval_expr (fuel : nat) (e : expr) (en : env) (w : W) (kr k : KV) {struct fuel} : Ans :=
     match fuel with
     | O => (NoFuel, w)
     | S fuel =>
       match e with
-      | ELit n => (Norm (VInt n), w)
-      | EBool b => (Norm (VBool b), w)
-      | EUnit => (Norm VUnit, w)
+      | ELit n => k (VInt n) w
+      | EBool b => k (VBool b) w
+      | EUnit => k VUnit w
       | EVar x =>
           match lookup x en with
-          | Some v => (Norm v, w)
-          | None => (Norm (VCtor x []), w)      (* unit-like constructor / constant path *)
+          | Some v => k v w
+          | None => k (VCtor x []) w            (* unit-like constructor / constant path *)
           end
       | EBin And a b =>
-          match eval_expr fuel a en w with
-          | (Norm (VBool true), w) => eval_expr fuel b en w
-          | (Norm (VBool false), w) => (Norm (VBool false), w)
-          | (Norm _, w) => (Stuck "&& on non-boolean", w)
-          | r => r
-          end
+          eval_expr fuel a en w kr (fun va w =>
+            match va with
+            | VBool true => eval_expr fuel b en w kr k
+            | VBool false => k (VBool false) w
+            | _ => (Stuck "&& on non-boolean", w)
+            end)
       | EBin Or a b =>
-          match eval_expr fuel a en w with
-          | (Norm (VBool false), w) => eval_expr fuel b en w
-          | (Norm (VBool true), w) => (Norm (VBool true), w)
-          | (Norm _, w) => (Stuck "|| on non-boolean", w)
-          | r => r
-          end
+          eval_expr fuel a en w kr (fun va w =>
+            match va with
+            | VBool false => eval_expr fuel b en w kr k
+            | VBool true => k (VBool true) w
+            | _ => (Stuck "|| on non-boolean", w)
+            end)
       | EBin op a b =>
-          match eval_expr fuel a en w with
-          | (Norm va, w) =>
-              match eval_expr fuel b en w with
-              | (Norm vb, w) => (binop_val op va vb, w)
-              | r => r
-              end
-          | r => r
-          end
+          eval_expr fuel a en w kr (fun va w =>
+            eval_expr fuel b en w kr (fun vb w => kont (binop_val op va vb) w k))
       | ENot a =>
-          match eval_expr fuel a en w with
-          | (Norm (VBool b), w) => (Norm (VBool (negb b)), w)
-          | (Norm _, w) => (Stuck "! on non-boolean", w)
-          | r => r
-          end
+          eval_expr fuel a en w kr (fun va w =>
+            match va with
+            | VBool b => k (VBool (negb b)) w
+            | _ => (Stuck "! on non-boolean", w)
+            end)
       | EIf c t e =>
-          match eval_expr fuel c en w with
-          | (Norm (VBool true), w) => eval_eblock fuel t en w
-          | (Norm (VBool false), w) =>
-              match e with
-              | Some b => eval_eblock fuel b en w
-              | None => (Norm VUnit, w)
-              end
-          | (Norm _, w) => (Stuck "if on non-boolean", w)
-          | r => r
-          end
+          eval_expr fuel c en w kr (fun vc w =>
+            match vc with
+            | VBool true => eval_eblock fuel t en w kr k
+            | VBool false =>
+                match e with
+                | Some b => eval_eblock fuel b en w kr k
+                | None => k VUnit w
+                end
+            | _ => (Stuck "if on non-boolean", w)
+            end)
       | EMatch s arms =>
-          match eval_expr fuel s en w with
-          | (Norm v, w) => eval_arms fuel v arms en w
-          | r => r
-          end
+          eval_expr fuel s en w kr (fun v w => eval_arms fuel v arms en w kr k)
       | ECall f args =>
-          match eval_args fuel args en w with
-          | (Norm vs, w) =>
-              match builtin f vs with
-              | Some o => (o, w)
-              | None =>
-                  match funs f with
-                  | Some fa =>
-                      match exec_block fuel (fn_body fa) (rev (combine (fn_params fa) vs)) w
-                                       (fun v _ w => (Norm v, w)) with
-                      | (Ret v, w) => (Norm v, w)
-                      | r => r
-                      end
-                  | None => prim f vs w
-                  end
-              end
-          | (o, w) => (reout o, w)
-          end
+          eval_args fuel args en w kr (fun vs w =>
+            match builtin f vs with
+            | Some o => kont o w k
+            | None =>
+                match funs f with
+                | Some fa =>
+                    exec_block fuel (fn_body fa) (rev (combine (fn_params fa) vs)) w k (fun v _ w => k v w)
+                | None => prim f vs w k
+                end
+            end)
       | EField a f =>
-          match eval_expr fuel a en w with
-          | (Norm (VStruct _ fs), w) =>
-              match lookup f fs with
-              | Some v => (Norm v, w)
-              | None => (Stuck "no such field", w)
-              end
-          | (Norm v, w) => prim ("field:" ++ f)%string [v] w
-          | r => r
-          end
-      | ETuple es =>
-          match eval_args fuel es en w with
-          | (Norm vs, w) => (Norm (VTuple vs), w)
-          | (o, w) => (reout o, w)
-          end
-      | EStruct name fs =>
-          match eval_fields fuel fs en w with
-          | (Norm vs, w) => (Norm (VStruct name vs), w)
-          | (o, w) => (reout o, w)
-          end
-      | EBlock b => eval_eblock fuel b en w
+          eval_expr fuel a en w kr (fun va w =>
+            match va with
+            | VStruct _ fs =>
+                match lookup f fs with
+                | Some v => k v w
+                | None => (Stuck "no such field", w)
+                end
+            | v => prim ("field:" ++ f)%string [v] w k
+            end)
+      | ETuple es => eval_args fuel es en w kr (fun vs w => k (VTuple vs) w)
+      | EStruct name fs => eval_fields fuel fs en w kr (fun vs w => k (VStruct name vs) w)
+      | EBlock b => eval_eblock fuel b en w kr k
       | EForeign t => (Stuck ("foreign: " ++ t)%string, w)
       end
     end
 
   (* a block in expression position *)
-  with eval_eblock (fuel : nat) (b : block) (en : env) (w : W) {struct fuel} : RE val :=
+  with eval_eblock (fuel : nat) (b : block) (en : env) (w : W) (kr k : KV) {struct fuel} : Ans :=
     match fuel with
     | O => (NoFuel, w)
     | S fuel =>
         if block_assigns b then (Stuck "assignment inside an expression block", w)
-        else exec_block fuel b en w (fun v _ w => (Norm v, w))
+        else exec_block fuel b en w kr (fun v _ w => k v w)
     end
 
-  with eval_args (fuel : nat) (es : list expr) (en : env) (w : W) {struct fuel} : RE (list val) :=
+  with eval_args (fuel : nat) (es : list expr) (en : env) (w : W) (kr : KV) (k : list val -> W -> Ans)
+       {struct fuel} : Ans :=
     match fuel with
     | O => (NoFuel, w)
     | S fuel =>
       match es with
-      | [] => (Norm [], w)
+      | [] => k [] w
       | e :: es =>
-          match eval_expr fuel e en w with
-          | (Norm v, w) =>
-              match eval_args fuel es en w with
-              | (Norm vs, w) => (Norm (v :: vs), w)
-              | r => r
-              end
-          | (o, w) => (reout o, w)
-          end
+          eval_expr fuel e en w kr (fun v w => eval_args fuel es en w kr (fun vs w => k (v :: vs) w))
       end
     end
 
-  with eval_fields (fuel : nat) (fs : list (string * expr)) (en : env) (w : W) {struct fuel}
-    : RE (list (string * val)) :=
+  with eval_fields (fuel : nat) (fs : list (string * expr)) (en : env) (w : W) (kr : KV)
+       (k : list (string * val) -> W -> Ans) {struct fuel} : Ans :=
     match fuel with
     | O => (NoFuel, w)
     | S fuel =>
       match fs with
-      | [] => (Norm [], w)
+      | [] => k [] w
       | (f, e) :: fs =>
-          match eval_expr fuel e en w with
-          | (Norm v, w) =>
-              match eval_fields fuel fs en w with
-              | (Norm vs, w) => (Norm ((f, v) :: vs), w)
-              | r => r
-              end
-          | (o, w) => (reout o, w)
-          end
+          eval_expr fuel e en w kr (fun v w => eval_fields fuel fs en w kr (fun vs w => k ((f, v) :: vs) w))
       end
     end
 
-  with eval_arms (fuel : nat) (v : val) (arms : list (pat * expr)) (en : env) (w : W)
-       {struct fuel} : RE val :=
+  with eval_arms (fuel : nat) (v : val) (arms : list (pat * expr)) (en : env) (w : W) (kr k : KV)
+       {struct fuel} : Ans :=
     match fuel with
     | O => (NoFuel, w)
     | S fuel =>
@@ -370,145 +353,120 @@ Section Eval.
       | [] => (Stuck "match: no arm applies", w)
       | (p, body) :: arms =>
           match match_pat p v with
-          | Some bs => eval_expr fuel body (bs ++ en) w
-          | None => eval_arms fuel v arms en w
+          | Some bs => eval_expr fuel body (bs ++ en) w kr k
+          | None => eval_arms fuel v arms en w kr k
           end
       end
     end
 
-  (* Blocks and statements are evaluated in continuation-passing style with respect to the
-     environment: `k` receives the environment and the world after a NORMAL completion; every other
-     outcome (return, panic, failure) is the answer at once.  (So the environment never travels
-     through the result of a world call.) *)
-  with exec_block (fuel : nat) (b : block) (en : env) (w : W) (k : val -> env -> W -> Ans)
+  with exec_block (fuel : nat) (b : block) (en : env) (w : W) (kr : KV) (k : val -> env -> W -> Ans)
        {struct fuel} : Ans :=
     match fuel with
     | O => (NoFuel, w)
     | S fuel =>
       match b with
       | Blk ss tail =>
-          exec_stmts fuel ss en w (fun en' w =>
+          exec_stmts fuel ss en w kr (fun en' w =>
             match tail with
-            | Some e =>
-                match eval_expr fuel e en' w with
-                | (Norm v, w) => k v (restore en en') w
-                | r => r
-                end
+            | Some e => eval_expr fuel e en' w kr (fun v w => k v (restore en en') w)
             | None => k VUnit (restore en en') w
             end)
       end
     end
 
-  with exec_stmts (fuel : nat) (ss : list stmt) (en : env) (w : W) (k : env -> W -> Ans)
+  with exec_stmts (fuel : nat) (ss : list stmt) (en : env) (w : W) (kr : KV) (k : env -> W -> Ans)
        {struct fuel} : Ans :=
     match fuel with
     | O => (NoFuel, w)
     | S fuel =>
       match ss with
       | [] => k en w
-      | s :: ss => exec_stmt fuel s en w (fun en w => exec_stmts fuel ss en w k)
+      | s :: ss => exec_stmt fuel s en w kr (fun en w => exec_stmts fuel ss en w kr k)
       end
     end
 
-  with exec_stmt (fuel : nat) (s : stmt) (en : env) (w : W) (k : env -> W -> Ans)
+  with exec_stmt (fuel : nat) (s : stmt) (en : env) (w : W) (kr : KV) (k : env -> W -> Ans)
        {struct fuel} : Ans :=
     match fuel with
     | O => (NoFuel, w)
     | S fuel =>
       match s with
       | SLet xs e =>
-          match eval_expr fuel e en w with
-          | (Norm v, w) =>
-              match bind_names xs v with
-              | Some bs => k (bs ++ en) w
-              | None => (Stuck "let: pattern does not fit the value", w)
-              end
-          | r => r
-          end
+          eval_expr fuel e en w kr (fun v w =>
+            match bind_names xs v with
+            | Some bs => k (bs ++ en) w
+            | None => (Stuck "let: pattern does not fit the value", w)
+            end)
       | SAssign x e =>
-          match eval_expr fuel e en w with
-          | (Norm v, w) =>
-              match update x v en with
-              | Some en' => k en' w
-              | None =>
-                  (* not a local: an assignment to a place of the world, e.g. "self.buf" *)
-                  match prim ("set:" ++ x)%string (v :: match lookup "self" en with Some s => [s] | None => [] end) w with
-                  | (Norm _, w) => k en w
-                  | r => r
-                  end
-              end
-          | r => r
-          end
+          eval_expr fuel e en w kr (fun v w =>
+            match update x v en with
+            | Some en' => k en' w
+            | None =>
+                (* not a local: an assignment to a place of the world, e.g. "self.buf" *)
+                prim ("set:" ++ x)%string (v :: match lookup "self" en with Some s => [s] | None => [] end) w
+                     (fun _ w => k en w)
+            end)
       | SOpAssign op x e =>
-          match eval_expr fuel e en w with
-          | (Norm v, w) =>
-              match lookup x en with
-              | Some old =>
-                  match binop_val op old v with
-                  | Norm r =>
-                      match update x r en with
-                      | Some en' => k en' w
-                      | None => (Stuck "op-assign: update", w)
-                      end
-                  | o => (o, w)
-                  end
-              | None => (Stuck "op-assign to a non-local", w)
-              end
-          | r => r
-          end
+          eval_expr fuel e en w kr (fun v w =>
+            match lookup x en with
+            | Some old =>
+                kont (binop_val op old v) w (fun r w =>
+                  match update x r en with
+                  | Some en' => k en' w
+                  | None => (Stuck "op-assign: update", w)
+                  end)
+            | None => (Stuck "op-assign to a non-local", w)
+            end)
       | SExpr (EIf c t e) =>
           (* statement-level if: its blocks may assign to outer variables *)
-          match eval_expr fuel c en w with
-          | (Norm (VBool true), w) => exec_block fuel t en w (fun _ en w => k en w)
-          | (Norm (VBool false), w) =>
-              match e with
-              | Some b => exec_block fuel b en w (fun _ en w => k en w)
-              | None => k en w
-              end
-          | (Norm _, w) => (Stuck "if on non-boolean", w)
-          | r => r
-          end
-      | SExpr (EBlock b) => exec_block fuel b en w (fun _ en w => k en w)
-      | SExpr e =>
-          match eval_expr fuel e en w with
-          | (Norm _, w) => k en w
-          | r => r
-          end
+          eval_expr fuel c en w kr (fun vc w =>
+            match vc with
+            | VBool true => exec_block fuel t en w kr (fun _ en w => k en w)
+            | VBool false =>
+                match e with
+                | Some b => exec_block fuel b en w kr (fun _ en w => k en w)
+                | None => k en w
+                end
+            | _ => (Stuck "if on non-boolean", w)
+            end)
+      | SExpr (EBlock b) => exec_block fuel b en w kr (fun _ en w => k en w)
+      | SExpr e => eval_expr fuel e en w kr (fun _ w => k en w)
       | SWhile c body =>
-          match eval_expr fuel c en w with
-          | (Norm (VBool true), w) =>
-              exec_block fuel body en w (fun _ en w => exec_stmt fuel (SWhile c body) en w k)
-          | (Norm (VBool false), w) => k en w
-          | (Norm _, w) => (Stuck "while on non-boolean", w)
-          | r => r
-          end
-      | SReturn None => (Ret VUnit, w)
-      | SReturn (Some e) =>
-          match eval_expr fuel e en w with
-          | (Norm v, w) => (Ret v, w)
-          | r => r
-          end
+          eval_expr fuel c en w kr (fun vc w =>
+            match vc with
+            | VBool true =>
+                exec_block fuel body en w kr (fun _ en w => exec_stmt fuel (SWhile c body) en w kr k)
+            | VBool false => k en w
+            | _ => (Stuck "while on non-boolean", w)
+            end)
+      | SReturn None => kr VUnit w
+      | SReturn (Some e) => eval_expr fuel e en w kr kr
       | SPanic _ => (Panic, w)
       | SDebugAssert e =>
           if release cfg then k en w
-          else match eval_expr fuel e en w with
-               | (Norm (VBool true), w) => k en w
-               | (Norm (VBool false), w) => (Panic, w)
-               | (Norm _, w) => (Stuck "debug_assert on non-boolean", w)
-               | r => r
-               end
+          else eval_expr fuel e en w kr (fun v w =>
+                 match v with
+                 | VBool true => k en w
+                 | VBool false => (Panic, w)
+                 | _ => (Stuck "debug_assert on non-boolean", w)
+                 end)
       | SForeign t => (Stuck ("foreign: " ++ t)%string, w)
       end
     end.
 
-  (* run a whole function: `Ret v` at the boundary becomes the result *)
-  Definition eval_fn (fuel : nat) (fa : fn_ast) (args : list val) (w : W) : outcome F val * W :=
-    match exec_block fuel (fn_body fa) (rev (combine (fn_params fa) args)) w
-                     (fun v _ w => (Norm v, w)) with
-    | (Ret v, w) => (Norm v, w)
-    | r => r
-    end.
+  (* run a whole function *)
+  Definition eval_fn (fuel : nat) (fa : fn_ast) (args : list val) (w : W) : Ans :=
+    exec_block fuel (fn_body fa) (rev (combine (fn_params fa) args)) w
+               (fun v w => (Norm v, w)) (fun v _ w => (Norm v, w)).
 End Eval.
+
+(* a world handler given in direct style *)
+Definition direct {F W : Type} (p : string -> list val -> W -> outcome F val * W)
+  : string -> list val -> W -> (val -> W -> outcome F val * W) -> outcome F val * W :=
+  fun f vs w k => match p f vs w with
+                  | (Norm v, w') => k v w'
+                  | r => r
+                  end.
 
 Arguments eval_fn {F W}.
 Arguments eval_expr {F W}.
